@@ -41,14 +41,15 @@ type InputVar struct {
 }
 
 type Exec struct {
-	eng    *Engine
-	ctx    *Ctx
-	sol    *Solver
-	src    *decisionSrc
-	pc     []*Term
-	globs  map[*ssa.Global]*Pointer
-	pools  map[*Object][]Value // sync.Pool contents per pool object
-	extErr map[string]*IfaceV
+	eng      *Engine
+	ctx      *Ctx
+	sol      *Solver
+	src      *decisionSrc
+	pc       []*Term
+	globs    map[*ssa.Global]*Pointer
+	pools    map[*Object][]Value // sync.Pool contents per pool object
+	builders map[*Value][]*Term  // strings.Builder contents per builder address
+	extErr   map[string]*IfaceV
 
 	nextObj int
 	epoch   int
